@@ -37,8 +37,8 @@ CallableTypes = (FunctionType, MethodType)
 
 # Mapping of coercable types.
 CoercableTypes = {
-    float: (ValidateTrait.coerce, float, int),
-    complex: (ValidateTrait.coerce, complex, float, int),
+    float: (ValidateTrait.coerce, float, None, int),
+    complex: (ValidateTrait.coerce, complex, None, float, int),
 }
 
 _WARNING_FORMAT_STR = ("'{handler}' trait handler has been deprecated. "
